@@ -645,7 +645,12 @@ func (x *Exec) applyContract(st *State, in ssa.Instruction, fc *FuncContract, ca
 	}
 	// the callee's ghost variables are unknown at the call site
 	for _, g := range fc.Ghosts {
-		env2.binds[g.Name] = Bound{V: x.D.Fresh("cg_"+g.Name, g.Sort)}
+		sort := g.Sort
+		if !isSMTSort(sort) && !strings.HasPrefix(sort, "S_") {
+			// a ghost of Go type whose sort has not been resolved yet (the callee is verified later)
+			sort = x.D.SortOf(x.resolveType(env2, g.Init, sort))
+		}
+		env2.binds[g.Name] = Bound{V: x.D.Fresh("cg_"+g.Name, sort)}
 	}
 	for _, cl := range fc.Ensures {
 		st.Assume(x.evalBool(env2, cl))
@@ -675,9 +680,17 @@ func (x *Exec) builtin(st *State, in ssa.Instruction, b *ssa.Builtin, c *ssa.Cal
 		case *types.Basic:
 			return app(SInt, "strlen", v)
 		case *types.Map:
-			_, _, ck := x.mapHeapKeys(u)
+			hk, _, ck := x.mapHeapKeys(u)
 			r := Ite(Eq(v, Zero), Zero, Select(x.heap(st, ck), v))
 			st.Assume(Ge(r, Zero))
+			// the zero case of "len is the number of keys": a map has length 0 iff it has no key
+			ks := x.D.SortOf(u.Key())
+			has := Select(x.heap(st, hk), v)
+			x.W.qn++
+			qk := mk(ks, fmt.Sprintf("q!lenk!%d", x.W.qn))
+			st.Assume(mk(SBool, fmt.Sprintf("(forall ((%s %s)) (=> (and (not (= %s 0)) (select %s %s)) (> %s 0)))", qk.S, ks, v.S, has.S, qk.S, r.S)))
+			sk := x.D.Fresh("somekey", ks)
+			st.Assume(Implies(Gt(r, Zero), And(Neq(v, Zero), Select(has, sk))))
 			return r
 		case *types.Chan:
 			r := x.D.Fresh("chlen", SInt)
